@@ -335,3 +335,39 @@ def run(repo: Repo, rep: Report, tier: str) -> None:
     rep.analysed["C05-R11:operand swaps with an operator table"] = n11
     if n11 == 0:
         rep.ok("C05-R11", "no comparison is re-oriented through an operator table in the lowering", "0 swap sites (constant-first thresholds are not inlined)", "dsl_compiler/src/lowering/memory_lowerer.py:1", nontrivial=False)
+
+    # ---------------- R12 --------------------------------------------------------------
+    rep.rule("C05-R12", "reset priority is decided on the reset input alone: the feedback of a latch travels on the latch's own signal and, for the combinator-built reset-first "
+             "latch, adds to the set input — a single test `S > R` therefore stops honouring the reset once the cell is on (S + 1 > R). The reset-first placement is a "
+             "multi-condition decider in which every OR-group contains a row `reset = 0`")
+    rsl = mb.methods["_create_rs_latch_placement"]
+    cap = calls_in(rsl.node, "create_and_add_placement")
+    if not cap:
+        raise AnalysisError("C05-R12: _create_rs_latch_placement creates no placement")
+    cv12 = kwarg(cap[0], "conditions")
+    rows12 = None
+    if isinstance(cv12, ast.Name):
+        for st in walk_local(rsl.node):
+            if isinstance(st, ast.Assign) and norm(st.targets[0]) == cv12.id and isinstance(st.value, ast.List):
+                rows12 = st.value.elts
+    elif isinstance(cv12, ast.List):
+        rows12 = cv12.elts
+    reset_p = [p_ for p_ in rsl.params if "reset" in p_]
+    ok12 = False
+    detail12 = "single condition on (set, reset): `operation`/`left_operand`/`right_operand`"
+    if rows12 and reset_p:
+        groups, cur = [], []
+        for r_ in rows12:
+            dct = {k.value: v for k, v in zip(r_.keys, r_.values) if isinstance(k, ast.Constant)} if isinstance(r_, ast.Dict) else {}
+            if dct.get("compare_type") is not None and norm(dct["compare_type"]) == "'or'" and cur:
+                groups.append(cur)
+                cur = []
+            cur.append(dct)
+        if cur:
+            groups.append(cur)
+        def _is_reset_row(dct):
+            return "first_signal" in dct and norm(dct["first_signal"]) == reset_p[0] and norm(dct.get("comparator")) in ("'='", "'=='") and norm(dct.get("second_constant")) == "0"
+        ok12 = bool(groups) and all(any(_is_reset_row(x) for x in g_) for g_ in groups)
+        detail12 = f"{len(groups)} OR-group(s), each with `{reset_p[0]} = 0`" if ok12 else f"{len(groups)} OR-group(s), some without a row `{reset_p[0]} = 0`"
+    rep.check(ok12, "C05-R12", "_create_rs_latch_placement tests the reset input in every OR-group", detail12 if ok12 else
+              detail12 + ": with the cell on and set still active, a reset equal to the set input does not win (history s=1; r=1 reads 1 instead of 0)", rsl.loc(cap[0]))
